@@ -411,3 +411,26 @@ func InotifyFdsOpen() (n int, list []string) {
 	}
 	return n, list
 }
+
+// ---- exported helpers for harnesses of other back ends (kharness) ----
+
+// Record appends an observation.
+func (x *X) Record(o Obs) { x.obs(o) }
+
+// BeginCall notes the start of an API call that may block.
+func (x *X) BeginCall(what, arg string, w int) int {
+	x.callSeq++
+	id := x.callSeq
+	x.Pending[id] = fmt.Sprintf("%s(%q) by %s", what, arg, vsched.CurName())
+	x.obs(Obs{Kind: "call", What: what, Arg: arg, W: w, CallID: id})
+	return id
+}
+
+// EndCall notes its return.
+func (x *X) EndCall(id int, what, arg string, w int, err string, list []string) {
+	delete(x.Pending, id)
+	x.obs(Obs{Kind: "ret", What: what, Arg: arg, Err: err, W: w, CallID: id, List: list})
+}
+
+// FS notes a filesystem operation of the harness.
+func (x *X) FS(what, arg string, err error) { x.fs(what, arg, err) }
